@@ -146,7 +146,7 @@ def _ind(region):
     return Rat.atom(("ind", ("region", region_key(region))))
 
 
-def _record_restore(ctx):
+def _record_restore(ctx, scenes=None):
     ix = ctx.index
     for f in ("fdtdx.fdtd.update.collect_interfaces", "fdtdx.fdtd.update.add_interfaces", "fdtdx.fdtd.misc.collect_boundary_interfaces", "fdtdx.fdtd.misc.add_boundary_interfaces"):
         ctx.unit(ix.function(f).where())
@@ -154,7 +154,7 @@ def _record_restore(ctx):
     for m in ("compress", "decompress"):
         ctx.unit(R.lookup_method(m).where())
     all_sides = [(a, d) for a in range(3) for d in "-+"]
-    scenes = [all_sides, [(2, "-")], [(0, "+"), (1, "-")]]
+    scenes = scenes or [all_sides, [(2, "-")], [(0, "+"), (1, "-")]]
     t = integer_atom("t")
     n = 0
     for sides in scenes:
@@ -210,7 +210,7 @@ def _record_restore(ctx):
                     badc = badc or (c, to_rat(got.data[c]).fmt()[:300], x.fmt()[:300])
             n += 1
             ctx.ob("R3.1", f"add_interfaces[{label}]:{F}", badc is None, f"after the restore at index t, {F} equals the {F} collected at index t on the slab cell adjacent to the interior of every layer (last cell of a min-side slab, first cell of a max-side slab) and is untouched elsewhere — independently of the buffers' previous content" + (f" — component {badc[0]} differs" if badc else ""), badc[1] if badc else "3 components", badc[2] if badc else "recorded values at the interface cells")
-    ctx.require_count("R3.1 restore cases", n, 6)
+    ctx.require_count("R3.1 restore cases", n, min(6, 2 * len(scenes)))
 
 
 def _slices(ctx):
@@ -341,6 +341,12 @@ def _full_backward(ctx):
             ev = [e for e in lp.events if e[0] == "backward"]
             ok = lp.step == -1 and to_rat(lp.t0).equals(T) and to_rat(lp.t_exit).equals(s) and lp.enters and len(ev) == 1 and dict(ev[0][2]) == {"record_detectors": rd, "reset_fields": rf} and to_rat(r[0]).equals(s)
         ctx.ob("R3.6", f"full_backward[record_detectors={rd},reset_fields={rf}]", ok, "one reverse step per iteration with the caller's flags, from the current index down to start_time_step, where it stops: every earlier step is reproduced once and nothing before the start", [(to_rat(lp.t0).fmt(), to_rat(lp.t_exit).fmt(), lp.step) for lp in d.loops], "T -> s by -1")
+
+
+def run_thorough(ctx):
+    """Every single face and every pair of faces."""
+    sides = [(a, d) for a in range(3) for d in "-+"]
+    _record_restore(ctx, scenes=[[s_] for s_ in sides] + [list(p) for p in itertools.combinations(sides, 2)])
 
 
 def run(ctx):
